@@ -37,6 +37,9 @@ META = {
     "C19": {"technique": "property-based testing: generated input schemas and valid / single-mutation-invalid documents, normalisation oracle",
             "level_text": "Generated-input search over input schemas and documents: an invalid document must be refused before the scripted deployer sees any run-phase activity; a valid one must reach every consumer exactly as the harness's own normalisation (types, defaults) predicts, also through the YAML decoding path.",
             "level_note": TB + "; validity of a document is decided by construction (one mutation of a valid document)"},
+    "C05": {"technique": "property-based fault injection: generated exit paths (cancel triggers, launch/probe failures) + resource accounting oracle",
+            "level_text": "Generated workflows are driven down each exit path with injected faults and cancellation instants; the scripted deployer's deploy/close counters, the plugin's in-progress counter and a goroutine census decide whether anything was left behind.",
+            "level_note": TB + "; the launch-failure path needs the harness step kind vstartfail because the built-in providers cannot fail in Start after Prepare"},
 }
 
 NOT_APPLICABLE = []
